@@ -309,6 +309,11 @@ def drops(F, R):
 
 
 def check(F, R, tier):
+    # F19b: the connection identifies a chunk by offset / sample_size: the size passed with a send is the chunk size of the segment
+    for f_ in F.find_fns(r'^iceoryx2::port::details::sender::Sender::<.*>::deliver_offset_to_connection_impl$'):
+        for c_ in f_.calls(SEND_RE):
+            t_ = sym_nstr(sym(f_, c_.args[2]))
+            R.ob('FLOW', 'FLOW::%s::sample_size-is-the-segments-chunk-size::%s' % (fnkey(f_), c_.callee.rsplit('::', 1)[-1]), 'SegmentState::payload_size(' in t_ and 'ChunkMut::size' not in t_, 'send(.., sample_size = %s): required segment_states[offset.segment_id].payload_size(), not the used size of the chunk (smaller after a grow): the connection computes the chunk index as offset / sample_size' % t_[:110], c_.where, f_)
     send_sites(F, R)
     history(F, R)
     loans(F, R)
